@@ -257,6 +257,64 @@ def cases(draw):
     return spec
 
 
+def prop_single_call(spec, rec):
+    """One scheduling call on a frozen site (partially served sessions, caller-narrowed session
+    bounds, an infrastructure description whose finite level lists may omit the implied 0 A - the
+    cases of C08's greedy_session_bounds), judged by C07's clauses only: whatever the greedy
+    algorithm returns is feasible for the network, every pilot is one the station accepts (a listed
+    level or 0 A; within the station's range), none exceeds the session's remaining demand, and
+    stations without an active session get 0 A.  A refusal (ValueError: the sessions' own minimum
+    rates are infeasible together) is not a schedule and is not judged here."""
+    from acnportal.algorithms import SortedSchedulingAlgo
+
+    from . import c08
+
+    algo = SortedSchedulingAlgo(sc.SORTS[spec["sort"]])
+    net, sim, evs = c08.setup(spec, algo)
+    algo.register_interface(c08.make_adapter(sim, set(spec["strip_zero"])))
+    sessions = algo.interface.active_sessions()
+    bounds = {b["id"]: b for b in spec["bounds"]}
+    for ses in sessions:
+        b = bounds[ses.session_id]
+        n = len(ses.min_rates)
+        ses.min_rates = np.full(n, float(b["lb"]))
+        ses.max_rates = np.full(n, float("inf") if b["ub"] is None else float(b["ub"]))
+    ids, ph, A, L, info = c08.oracle_inputs(spec, evs)
+    labels = {"single_call", "sort_" + spec["sort"]}
+    try:
+        out = algo.schedule(sessions)
+    except ValueError:
+        rec.case(spec, labels | {"refused"}, False)
+        return
+    require(sorted(out) == sorted(ids), "every_station_in_schedule", lambda: "keys %r" % sorted(out))
+    r = [float(out[sid][0]) for sid in ids]
+    m = c08.margin(A, L, ph, r)
+    if abs(m) < 1e-9:
+        rec.case(spec, labels | {"ambiguous"}, False)
+        return
+    require(m > 0, "emitted_schedule_infeasible", lambda: "schedule %r violates a constraint by %r A (limits %r)" % (dict(zip(ids, r)), -m, L))
+    active = {e["i"]: e for e in info if e["rem"] > 1e-3}
+    tight = False
+    for i, sid in enumerate(ids):
+        stn = spec["stations"][i]
+        if i not in active:
+            require(r[i] == 0, "pilot_for_station_without_active_session", lambda: "station %s got %r A" % (sid, r[i]))
+            continue
+        if stn["kind"] == "finite":
+            ok = r[i] == 0 or any(abs(r[i] - float(a)) <= 1e-9 for a in stn["rates"])
+        else:
+            ok = -1e-9 <= r[i] <= float(stn["max"]) + 1e-9
+        require(ok, "pilot_not_accepted_by_evse", lambda: "station %s (%r) got %r A" % (sid, stn.get("rates", stn.get("max")), r[i]))
+        require(r[i] <= active[i]["amp"] + 1e-6 or r[i] <= float(bounds[active[i]["sid"]]["lb"]) + 1e-9, "pilot_exceeds_remaining_demand", lambda: "station %s got %r A, remaining demand %r A*periods" % (sid, r[i], active[i]["amp"]))
+        if stn["kind"] == "finite" and r[i] == 0 and stn["id"] in spec["strip_zero"]:
+            tight = True
+    if spec["strip_zero"]:
+        labels.add("level_list_without_zero")
+    if tight:
+        labels.add("station_without_listed_zero_held_at_0")
+    rec.case(spec, labels, tight or m < 1.0)
+
+
 def base_cases():
     return sc.scenarios(
         kinds=("cont0", "cont0", "finite"),
@@ -277,9 +335,16 @@ def subchecks(tier):
             quick=400,
             thorough=30000,
             floors={"constraint_updated_mid_run": 0.08, "binding_constraint": 0.225, "estimator_bound_below_max": 0.076, "estimator_bound_exactly_zero": 0.009, "uninterrupted": 0.127, "sched_rr": 0.127, "sched_greedy": 0.229, "has_continuous_evse": 0.349, "has_finite_evse": 0.312},
-        )
+        ),
+        Given("single_call", _single_call_cases(), prop_single_call, quick=600, thorough=60000, floors={"level_list_without_zero": 0.15, "station_without_listed_zero_held_at_0": 0.01}),
     ]
 
 
+def _single_call_cases():
+    from . import c08
+
+    return c08.bounds_cases()
+
+
 def replay(subcheck, spec, rec):
-    return prop(spec, rec)
+    return (prop_single_call if subcheck == "single_call" else prop)(spec, rec)
